@@ -1,5 +1,5 @@
 /-
-  E. pending-ack bookkeeping: generated `RenetClient::{add_pending_ack, acked_largest}` (struct view: only
+  E. pending-ack bookkeeping: generated `RenetClient::{add_pending_ack, acked_largest}` (of the struct `RenetClient` only
   `pending_acks`) agree with `Acks.add 64` / `Acks.ackedLargest`.
   Headline statements in `Props/SrcTieAcks.lean`.
 -/
@@ -14,15 +14,17 @@ open Src.renet.remote_connection
 
 /-- model range ↦ generated `Range<u64>` -/
 def ackR (r : AckRange) : RustSem.Range := ⟨r.1, r.2⟩
-/-- model pending-ack list ↦ generated struct view -/
-def reprAcks (l : List AckRange) : RenetClient := ⟨l.map ackR⟩
+/-- model pending-ack list ↦ generated struct: `base` with these pending acks (the two functions touch no other field) -/
+def reprAcks (base : RenetClient) (l : List AckRange) : RenetClient := { base with pending_acks := l.map ackR }
 /-- generated ↦ model -/
 def absAcks (c : RenetClient) : List AckRange := c.pending_acks.map fun r => (r.start, r.«end»)
 
-theorem absAcks_reprAcks (l : List AckRange) : absAcks (reprAcks l) = l := by
+theorem absAcks_reprAcks (base : RenetClient) (l : List AckRange) : absAcks (reprAcks base l) = l := by
   simp [absAcks, reprAcks, ackR, Function.comp_def]
-theorem reprAcks_absAcks (c : RenetClient) : reprAcks (absAcks c) = c := by
+theorem reprAcks_absAcks (c : RenetClient) : reprAcks c (absAcks c) = c := by
   cases c; simp [absAcks, reprAcks, ackR, Function.comp_def]
+
+variable {base : RenetClient}
 
 section lists
 variable {α : Type}
@@ -55,16 +57,16 @@ theorem whileFuel_succ {ε ρ σ : Type} (n : Nat) (site : String) (st : σ) (bo
 
 theorem acked_loop {ε : Type} (largest : Nat) (site : String)
     (body : RenetClient → Exec ε (LoopExit (RenetClient × Unit) RenetClient) RenetClient)
-    (hbody : ∀ l : List AckRange, (∀ r ∈ l, r.2 < 2 ^ 64) → body (reprAcks l) =
+    (hbody : ∀ l : List AckRange, (∀ r ∈ l, r.2 < 2 ^ 64) → body (reprAcks base l) =
       match l with
-      | [] => .ret (.brk (reprAcks []))
+      | [] => .ret (.brk (reprAcks base []))
       | (s, e) :: rest =>
-        if largest < s then .ret (.ret (reprAcks ((s, e) :: rest), ()))
-        else if e ≤ largest then .ret (.cont (reprAcks rest))
-        else .ret (.ret (reprAcks (if largest + 1 ≥ e then rest else (largest + 1, e) :: rest), ()))) :
+        if largest < s then .ret (.ret (reprAcks base ((s, e) :: rest), ()))
+        else if e ≤ largest then .ret (.cont (reprAcks base rest))
+        else .ret (.ret (reprAcks base (if largest + 1 ≥ e then rest else (largest + 1, e) :: rest), ()))) :
     ∀ (l : List AckRange) (fuel : Nat), (∀ r ∈ l, r.2 < 2 ^ 64) → l.length < fuel →
-      ((RustSem.whileFuel fuel site (reprAcks l) body).bind fun self => Exec.val (self, ())).run
-        = .ok (reprAcks (Acks.ackedLargest largest l), ()) := by
+      ((RustSem.whileFuel fuel site (reprAcks base l) body).bind fun self => Exec.val (self, ())).run
+        = .ok (reprAcks base (Acks.ackedLargest largest l), ()) := by
   intro l
   induction l with
   | nil =>
@@ -103,9 +105,9 @@ theorem index_val0 {ε ρ α : Type} (x : α) (r : List α) (site : String) :
 
 theorem acked_largest_eq {ε : Type} (l : List AckRange) (largest : Nat) (hl : ∀ r ∈ l, r.2 < 2 ^ 64)
     (hfit : l.length + 1 < 2 ^ 64) :
-    (RenetClient.acked_largest (reprAcks l) largest : Res ε _) = .ok (reprAcks (Acks.ackedLargest largest l), ()) := by
+    (RenetClient.acked_largest (reprAcks base l) largest : Res ε _) = .ok (reprAcks base (Acks.ackedLargest largest l), ()) := by
   unfold RenetClient.acked_largest
-  have hlen : RustSem.len (reprAcks l).pending_acks = l.length := by simp [RustSem.len, reprAcks]
+  have hlen : RustSem.len (reprAcks base l).pending_acks = l.length := by simp [RustSem.len, reprAcks]
   simp only [hlen, add_val hfit, Exec.bind_eq, Exec.pure_eq, Exec.bind_val']
   refine acked_loop largest _ _ ?hbody l (l.length + 1) hl (Nat.lt_succ_self _)
   intro l' hl'
@@ -164,15 +166,15 @@ theorem addAux_cons (seq : Nat) (x : AckRange) (rest : List AckRange) :
 theorem add_loop {ε : Type} (seq : Nat)
     (body : Nat → RenetClient → Exec ε (RenetClient × Unit) RenetClient)
     (hbody : ∀ (pre : List AckRange) (x : AckRange) (rest : List AckRange), (pre ++ x :: rest).length ≤ 64 →
-      body pre.length (reprAcks (pre ++ x :: rest)) =
+      body pre.length (reprAcks base (pre ++ x :: rest)) =
         match addHead seq x rest with
-        | some suf' => .ret (reprAcks (Acks.capFront 64 (pre ++ suf')), ())
-        | none => .val (reprAcks (pre ++ x :: rest))) :
+        | some suf' => .ret (reprAcks base (Acks.capFront 64 (pre ++ suf')), ())
+        | none => .val (reprAcks base (pre ++ x :: rest))) :
     ∀ (suf pre : List AckRange), (pre ++ suf).length ≤ 64 →
-      RustSem.forRange.loop body suf.length pre.length (reprAcks (pre ++ suf)) =
+      RustSem.forRange.loop body suf.length pre.length (reprAcks base (pre ++ suf)) =
         match Acks.addAux seq suf with
-        | some suf' => .ret (reprAcks (Acks.capFront 64 (pre ++ suf')), ())
-        | none => .val (reprAcks (pre ++ suf)) := by
+        | some suf' => .ret (reprAcks base (Acks.capFront 64 (pre ++ suf')), ())
+        | none => .val (reprAcks base (pre ++ suf)) := by
   intro suf
   induction suf with
   | nil => intro pre _; simp [RustSem.forRange.loop, Acks.addAux]
@@ -191,28 +193,28 @@ theorem add_loop {ε : Type} (seq : Nat)
       | some suf' => simp
 
 theorem reprAcks_mid (pre : List AckRange) (x : AckRange) (rest : List AckRange) :
-    reprAcks (pre ++ x :: rest) = ⟨pre.map ackR ++ ackR x :: rest.map ackR⟩ := by
+    reprAcks base (pre ++ x :: rest) = { base with pending_acks := pre.map ackR ++ ackR x :: rest.map ackR } := by
   simp [reprAcks]
 
 theorem add_pending_ack_eq {ε : Type} (l : List AckRange) (seq : Nat) (hs : seq + 1 < 2 ^ 64) (hlen : l.length ≤ 64) :
-    (RenetClient.add_pending_ack (reprAcks l) seq : Res ε _) = .ok (reprAcks (Acks.add 64 seq l), ()) := by
+    (RenetClient.add_pending_ack (reprAcks base l) seq : Res ε _) = .ok (reprAcks base (Acks.add 64 seq l), ()) := by
   unfold RenetClient.add_pending_ack
   cases l with
   | nil =>
     simp [reprAcks, RustSem.is_empty, add_val hs, Exec.bind_eq, Exec.bind, Exec.run, Acks.add, RustSem.push, ackR]
   | cons y ys =>
-    have hne : RustSem.is_empty (reprAcks (y :: ys)).pending_acks = false := by simp [reprAcks, RustSem.is_empty]
-    have hl : RustSem.len (reprAcks (y :: ys)).pending_acks = (y :: ys).length := by simp [reprAcks, RustSem.len]
+    have hne : RustSem.is_empty (reprAcks base (y :: ys)).pending_acks = false := by simp [reprAcks, RustSem.is_empty]
+    have hl : RustSem.len (reprAcks base (y :: ys)).pending_acks = (y :: ys).length := by simp [reprAcks, RustSem.len]
     simp only [hne, Bool.false_eq_true, if_false, Exec.bind_eq, Exec.pure_eq, Exec.bind_val', hl, RustSem.forRange,
       Nat.sub_zero]
-    show ((RustSem.forRange.loop _ (y :: ys).length ([] : List AckRange).length (reprAcks ([] ++ y :: ys))).bind _).run = _
+    show ((RustSem.forRange.loop _ (y :: ys).length ([] : List AckRange).length (reprAcks base ([] ++ y :: ys))).bind _).run = _
     rw [add_loop (ε := ε) seq _ ?hbody (y :: ys) [] hlen]
     case hbody =>
       intro pre x rest hlen'
       obtain ⟨s, e⟩ := x
       have hcap : ∀ l : List AckRange, l.length ≤ 64 → Acks.capFront 64 l = l := by
         intro l h; unfold Acks.capFront; rw [if_neg (by omega)]
-      have hback : ∀ suf : List AckRange, reprAcks (pre ++ suf) = ⟨pre.map ackR ++ suf.map ackR⟩ := by
+      have hback : ∀ suf : List AckRange, reprAcks base (pre ++ suf) = { base with pending_acks := pre.map ackR ++ suf.map ackR } := by
         intro suf; simp [reprAcks]
       have hplen : pre.length + 1 < 2 ^ 64 := by
         simp only [List.length_append, List.length_cons] at hlen'; omega
@@ -278,7 +280,7 @@ theorem add_pending_ack_eq {ε : Type} (l : List AckRange) (seq : Nat) (hs : seq
     | none =>
       simp only [Exec.bind_val', add_val hs]
       unfold Acks.capFront
-      have hpush : RustSem.push (reprAcks (y :: ys)).pending_acks ({ start := seq, «end» := seq + 1 } : RustSem.Range)
+      have hpush : RustSem.push (reprAcks base (y :: ys)).pending_acks ({ start := seq, «end» := seq + 1 } : RustSem.Range)
           = (y :: ys ++ [(seq, seq + 1)]).map ackR := by simp [RustSem.push, reprAcks, ackR]
       have hlen2 : RustSem.len ((y :: ys ++ [(seq, seq + 1)]).map ackR) = (y :: ys ++ [(seq, seq + 1)]).length := by
         simp [RustSem.len]
@@ -293,11 +295,11 @@ theorem add_pending_ack_eq {ε : Type} (l : List AckRange) (seq : Nat) (hs : seq
     already contains the sequence (then nothing changes) -/
 theorem add_pending_ack_max {ε : Type} (l : List AckRange) :
     match l with
-    | [] => ∃ site, (RenetClient.add_pending_ack (reprAcks l) (2 ^ 64 - 1) : Res ε _) = .panic site
+    | [] => ∃ site, (RenetClient.add_pending_ack (reprAcks base l) (2 ^ 64 - 1) : Res ε _) = .panic site
     | (s, e) :: _ =>
       if s ≤ 2 ^ 64 - 1 ∧ 2 ^ 64 - 1 < e then
-        (RenetClient.add_pending_ack (reprAcks l) (2 ^ 64 - 1) : Res ε _) = .ok (reprAcks l, ())
-      else ∃ site, (RenetClient.add_pending_ack (reprAcks l) (2 ^ 64 - 1) : Res ε _) = .panic site := by
+        (RenetClient.add_pending_ack (reprAcks base l) (2 ^ 64 - 1) : Res ε _) = .ok (reprAcks base l, ())
+      else ∃ site, (RenetClient.add_pending_ack (reprAcks base l) (2 ^ 64 - 1) : Res ε _) = .panic site := by
   have hov : ¬ (2 ^ 64 - 1 + 1 < 2 ^ 64) := by decide
   cases l with
   | nil =>
@@ -309,12 +311,12 @@ theorem add_pending_ack_max {ε : Type} (l : List AckRange) :
   | cons x rest =>
     obtain ⟨s, e⟩ := x
     simp only
-    have hstep : (RenetClient.add_pending_ack (reprAcks ((s, e) :: rest)) (2 ^ 64 - 1) : Res ε _) =
-        if s ≤ 2 ^ 64 - 1 ∧ 2 ^ 64 - 1 < e then .ok (reprAcks ((s, e) :: rest), ())
+    have hstep : (RenetClient.add_pending_ack (reprAcks base ((s, e) :: rest)) (2 ^ 64 - 1) : Res ε _) =
+        if s ≤ 2 ^ 64 - 1 ∧ 2 ^ 64 - 1 < e then .ok (reprAcks base ((s, e) :: rest), ())
         else .panic "renet/src/remote_connection.rs:RenetClient::add_pending_ack: sequence + 1" := by
       unfold RenetClient.add_pending_ack
-      have hne : RustSem.is_empty (reprAcks ((s, e) :: rest)).pending_acks = false := by simp [reprAcks, RustSem.is_empty]
-      have hl : RustSem.len (reprAcks ((s, e) :: rest)).pending_acks = rest.length + 1 := by simp [reprAcks, RustSem.len]
+      have hne : RustSem.is_empty (reprAcks base ((s, e) :: rest)).pending_acks = false := by simp [reprAcks, RustSem.is_empty]
+      have hl : RustSem.len (reprAcks base ((s, e) :: rest)).pending_acks = rest.length + 1 := by simp [reprAcks, RustSem.len]
       simp only [hne, Bool.false_eq_true, if_false, Exec.bind_eq, Exec.pure_eq, Exec.bind_val', hl,
         forRange_succ (Nat.succ_pos _)]
       simp only [reprAcks, List.map_cons, index_val0, Exec.bind_val', RustSem.Range.contains, ackR, add_panic hov]
